@@ -45,6 +45,15 @@ def jobs_for(tier: str) -> list[dict]:
                     if via in ("sink", "store"):
                         use = list(dict.fromkeys(stmts))  # a store is a set: corresponding data has no duplicates
                     jobs.append(dict(integ=integ, physical=physical, name=name, stmts=use, via=via, parsers=SIX if via == "generator" or physical == 1 else [], generalized=False, rdf_star=False, **cfg))
+    # namespace declarations through one reused stream (grouped entry points) and through containers, TRIPLES only
+    from ..values import Atom, sstr
+
+    ns = [(sstr(Atom("pfxA", nosep=True)), sstr(Atom("nsA.scheme", nosep=True), "/", Atom("nsA.path", nosep=True), "#")), ("", "http://example.org/x/")]
+    for name, stmts in C.repeat_masks(3)[:2] + [s for s in C.sharing_sequences(3) if s[0] in ("shared-prefixes-and-names", "five-statements")]:
+        for via_g, via_r in (("grouped2", "grouped2"), ("sink", "store")):
+            for integ, via in (("generic", via_g), ("rdflib", via_r)):
+                use = list(dict.fromkeys(stmts))
+                jobs.append(dict(integ=integ, physical=1, name=name + " +namespaces", stmts=use, via=via, parsers=[], generalized=False, rdf_star=False, delimited=True, frame_size=250, logical=1, preset=(8, 8, 8), namespaces=ns, namespaces_enabled=True))
     return jobs
 
 
@@ -62,7 +71,7 @@ def check(chk: Check) -> None:
             continue
         chk.functions.update(res["funcs"])
         jb = res["job"]
-        key = (jb["physical"], jb["name"], jb["delimited"], jb["frame_size"], jb.get("logical"), tuple(jb["preset"]), "gen" if jb["via"] == "generator" else "container")
+        key = (jb["physical"], jb["name"], jb["delimited"], jb["frame_size"], jb.get("logical"), tuple(jb["preset"]), "gen" if jb["via"] == "generator" else ("grouped" if jb["via"] == "grouped2" else "container"))
         by_key.setdefault(key, {})[jb["integ"]] = res
         # (a) parsers agree
         for pi, rec in enumerate(res["paths"]):
